@@ -38,10 +38,10 @@ CHECKS = {
          "globs restricted to literal/*/**/?; plain names; model written from the documentation", "4/C08"),
  "C09": ("exploration", "A", "deterministic simulation: real parallel walk under main-pool sizes 1/2/16 vs executable reference walk",
          "Seeded trees (nesting, hidden entries, ignore files, file/dir symlinks incl. dangling and cyclic, metacharacter and non-ASCII directory names) x selection options x overlapping roots; the selected set must equal the reference walk and be identical for all pool sizes.",
-         "glob forms literal/*/**/?; ignore files only in simple forms and never together with --follow-links; excluded directories excluded with their subtree; --one-fs not exercised", "4/C09"),
+         "glob forms literal/*/**/?/[..]; regex incl. alternations; ignore files only in simple forms, with --follow-links judged as 'selected iff not filtered along some route' (known finding c09-follow-links-route-order); excluded directories excluded with their subtree; --one-fs via seam-relabelled st_dev", "4/C09"),
  "C10": ("exploration", "A", "deterministic simulation: report as a faulted stream between two real processes (every cut offset, chunked delivery, writer ENOSPC/EIO/kill), paths observed at the seam",
          "Round trip observed through the raw paths the reader stats and through text-vs-JSON equivalence of effects on hostile-name worlds; exhaustive cut offsets of scenario text reports (JSON sampled); chunked stdin; failing/killed report writer.",
-         "codec coverage limited to the generator's name alphabets (no bounded-exhaustive string enumeration: not this technique); serial reader", "4/C10"),
+         "every string of 1..2 (thorough 1..3) symbols of a 17-symbol troublesome alphabet as file and directory name, longer names and paths up to PATH_MAX from the generator; hostile working directories and argument vectors; serial reader", "4/C10"),
  "C11": ("exploration", "A", "deterministic simulation: dry-run script executed/tokenised by real bash vs seam trace and final tree of the real run; pool sizes 1/2/16 with seeded delays",
          "Seeded worlds (shell-hostile names) x 5 operations x options: bash-run tree == real-run tree (remove/link/soft link), script operations == traced operations (all five), summaries equal, groups in report order, script independent of the pool size.",
          "bash as reference shell; temp suffixes masked; move/dedupe compared at operation level only", "4/C11"),
